@@ -387,7 +387,7 @@ class ExecMixin:
             which = self.pick(st, alts, "dyn-iter")
             if which == "list":
                 s = smt.dyn_acc("DList", 0, v.e)
-                return z3.Length(s), (lambda k: Z(T("dyn"), s[k]))
+                return z3.Length(s), (lambda k: Z(T("dyn"), smt.seq_nth(s, k)))
             if which == "str":
                 s = smt.dyn_acc("DStr", 0, v.e)
                 return z3.Length(s), (lambda k: Z(T("char"), smt.seq_nth(s, k)))
